@@ -14,6 +14,7 @@ XF = ("part.rs",)
 I0 = Const(0, "Int")
 
 
+@isolated('grid')
 def grid_obligations(prefix):
     """Space::new: `cdim = ceil(width / max_cell_width)`, `c_width = width / cdim`, and the cell literal in the loop nest."""
     u = Unit(SP, "Space::new")
@@ -65,6 +66,7 @@ def grid_obligations(prefix):
     return obs, [{"fn": lab, "slice_sha": u.sha}, {"fn": lab2, "slice_sha": extract.sha(extract.text_of(u.tree, lits[0]))}, {"fn": ug.label, "slice_sha": ug.sha}]
 
 
+@isolated('binning')
 def binning_obligations(prefix):
     """add_parts: the cell index computed for a particle is the cell that contains it (given the tiling above)."""
     u = Unit(SP, "Space::add_parts")
@@ -100,6 +102,7 @@ def binning_obligations(prefix):
     return obs, [{"fn": lab, "slice_sha": extract.sha(extract.text_of(u.tree, cl))}]
 
 
+@isolated('prune')
 def pruning_obligations(prefix):
     """The two bounds the ring search prunes with are lower bounds (so pruning never discards a nearer particle)."""
     obs, fns = [], []
@@ -125,6 +128,7 @@ def pruning_obligations(prefix):
     return obs, fns
 
 
+@isolated('ring')
 def ring_bound_obligations(prefix):
     """The termination test of the ring search: after rings 0..r, `dist_to_face + r * <cell width>` must be a lower bound for the distance to any
     point of a cell at Chebyshev ring distance >= r + 1 - for cells that are not cubes too (the statement is evaluated from the source)."""
@@ -159,6 +163,7 @@ def ring_bound_obligations(prefix):
     return obs, [{"fn": u.label + " / let min_dist_to_ring", "slice_sha": extract.sha(extract.text_of(u.tree, lets[0]))}]
 
 
+@isolated('welzl')
 def welzl_entry_obligations(prefix):
     """Welzl::bounding_sphere is nothing but the recursion started on all points with an empty boundary (no shortcut that bypasses it)."""
     u = Unit("bounding_sphere.rs", "Welzl::bounding_sphere@BoundingSphereSolver")
